@@ -202,6 +202,8 @@ def run(chk, repo, tier):
     chk.floor('C01.R3', n3, 20)
     chk.assume('factorisation contract Q@R == M of bond_ops.qr (C11 decides its structural part)')
     chk.assume('the trailing factor T is real for the QR sweeps (documented: the diagonal of R is real)')
+    from . import qnrules
+    qnrules.qnumber_rules(chk, repo, 'C01.R5')
     chk.undecided += ['isometry of the site tensors, unit norm, bond-dimension bound numerically',
                       'rank-deficient inputs and integer / real dtype behaviour']
     return ('Leg-domain proof obligation for the four local QR steps (gauge invariance under the QR contract, charge '
